@@ -7,7 +7,7 @@ Z3 every constructor field is serialised or is in the derived-field table
 import ast
 
 from ..engine.program import AnalysisError, dotted, src, walk_no_nested, call_name
-from ..engine import wire
+from ..engine import wire, flow
 
 SER = "src/serialization.py"
 ISO = "src/isoform_assignment.py"
@@ -166,7 +166,16 @@ def z1_framing(prog, ctx, wc):
         else:
             ctx.ok("Z1", "%s:%d" % (rel, c.lineno), "tag %s=%d fits %d bytes" % (name, v, w))
     # reader side
-    rid = prog.func(rel, "BaseTmpFileAssignmentLoader._read_id")
+    # the method that reads the next record tag: the one assigning self.current_id from a read_* call
+    base_cls = prog.cls(rel, "BaseTmpFileAssignmentLoader")
+    rid = None
+    for name_, fm in prog.methods_of(base_cls, inherited=False).items():
+        if name_ != "__init__" and any(isinstance(st_, ast.Assign) and dotted(st_.targets[0]) == "self.current_id" and isinstance(st_.value, ast.Call)
+                                        and (call_name(st_.value) or "").split(".")[-1].startswith("read_") for st_ in walk_no_nested(fm)):
+            rid = fm
+    if rid is None:
+        raise AnalysisError("BaseTmpFileAssignmentLoader: no method reads the record tag into self.current_id")
+    tag_reader = rid.name
     rcalls = [c for c in walk_no_nested(rid) if isinstance(c, ast.Call) and call_name(c)
               and call_name(c).split(".")[-1] in ("read_short_int", "read_int")]
     if len(rcalls) != 1:
@@ -202,26 +211,33 @@ def z1_framing(prog, ctx, wc):
                                                         "is_read_assignment": "BasicReadAssignment.deserialize_from_read_assignment"})):
         f = prog.func(rel, cls + ".get_object")
         seen = {}
-        node = f.body[0] if f.body else None
-        chain = []
-        while isinstance(node, ast.If):
-            chain.append(node)
-            node = node.orelse[0] if len(node.orelse) == 1 and isinstance(node.orelse[0], ast.If) else None
-        for ifn in chain:
-            t = call_name(ifn.test) if isinstance(ifn.test, ast.Call) else None
-            key = t.split(".")[-1] if t else None
-            if key in want:
-                calls = [call_name(c) for c in ast.walk(ast.Module(body=ifn.body, type_ignores=[])) if isinstance(c, ast.Call)]
-                des = [c for c in calls if c and c.endswith(("deserialize", "deserialize_from_read_assignment"))]
-                rids = [c for c in calls if c and c.endswith("_read_id")]
-                if des != [want[key]] or len(rids) != 1:
-                    ctx.fail("Z1", ifn, f._qualname, src(ifn.test),
-                             "branch %s must call %s once and then _read_id() once (found %s, %d tag reads)"
-                             % (key, want[key], des, len(rids)))
-                else:
-                    ctx.ok("Z1", "%s:%d" % (rel, ifn.lineno), "%s.%s -> %s then next tag" % (cls, key, want[key]))
-                seen[key] = True
+        # path-wise (elif chain, guard clauses, ... alike): which record kind a path has established, what it reads then
+        for pth in flow.paths(f):
+            kind = None
+            for t_, pol in pth.conds():
+                for atom, ap in flow.conjuncts(t_, pol):
+                    cn_ = (call_name(atom) or "").split(".")[-1] if isinstance(atom, ast.Call) else None
+                    if cn_ in want and ap and kind is None:
+                        kind = cn_
+            calls = [call_name(c) for st_ in pth.stmts() if not isinstance(st_, (ast.If, ast.For, ast.While, ast.With, ast.Try))
+                     for c in ast.walk(st_) if isinstance(c, ast.Call)]
+            des = [c for c in calls if c and c.endswith(("deserialize", "deserialize_from_read_assignment"))]
+            rids = [c for c in calls if c and c.split(".")[-1] == tag_reader]
+            if kind is None:
+                if des:
+                    ctx.fail("Z1", pth.exit_node or f, f._qualname, "path %s" % pth.describe()[:80], "a record is deserialised (%s) on a path that "
+                             "has not established its kind" % des)
+                continue
+            if des != [want[kind]] or len(rids) != 1:
+                if (kind, "bad") not in seen:
+                    ctx.fail("Z1", pth.exit_node or f, f._qualname, "%s: %s" % (kind, pth.describe()[:80]),
+                             "after %s() the loader must call %s once and then read the next tag once (found %s, %d tag reads)"
+                             % (kind, want[kind], des, len(rids)))
+                seen[(kind, "bad")] = True
+            elif kind not in seen:
+                ctx.ok("Z1", "%s:%d" % (rel, f.lineno), "%s.%s -> %s then next tag" % (cls, kind, want[kind]))
                 n += 1
+            seen[kind] = True
         for k in want:
             if k not in seen:
                 ctx.fail("Z1", f, f._qualname, f.name, "no branch handles %s" % k)
@@ -277,11 +293,11 @@ def z1_side_files(prog, ctx, wc):
     compare_trees(ctx, "Z1", "<save>_info file", w, r, wseq, rseq, names=False)
     n += 1
     # the order of the returned tuple must match the writer's order
-    ret = [s for s in r.body if isinstance(s, ast.Return)]
+    ret = [s for s in walk_no_nested(r) if isinstance(s, ast.Return)]
     if ret and isinstance(ret[0].value, ast.Tuple):
         order = [src(e) for e in ret[0].value.elts]
         assigned = {}
-        for st in r.body:
+        for st in walk_no_nested(r):
             if isinstance(st, ast.Assign) and isinstance(st.targets[0], ast.Name):
                 for i, (_o, _f, c) in enumerate(rseq):
                     if any(x is c for x in ast.walk(st.value)):
@@ -294,7 +310,7 @@ def z1_side_files(prog, ctx, wc):
 
     # multimapper files
     w = prog.func(rel, "DatasetProcessor.resolve_multimappers")
-    r = prog.func(rel, "construct_models_in_parallel")
+    r = prog.func_inlined(rel, "construct_models_in_parallel")
     wl = [c for c in ast.walk(w) if isinstance(c, ast.Call) and call_name(c) == "write_list"]
     wt = [c for c in ast.walk(w) if isinstance(c, ast.Call) and call_name(c) == "write_int"
           and dotted(c.args[0]) == "TERMINATION_INT"]
@@ -302,7 +318,7 @@ def z1_side_files(prog, ctx, wc):
         raise AnalysisError("resolve_multimappers: expected one write_list and one TERMINATION_INT write")
     welem = wire._func_ref_op(wc, wl[0].args[2], True)
     # reader: sentinel-terminated sequence of counted lists
-    loop = [s for s in r.body if isinstance(s, ast.While)]
+    loop = [s for s in walk_no_nested(r) if isinstance(s, ast.While) and "TERMINATION_INT" in src(s.test)]
     okshape = False
     relem = None
     if loop:
@@ -314,8 +330,9 @@ def z1_side_files(prog, ctx, wc):
             inner_for = [s for s in wh.body if isinstance(s, ast.For)]
             reread = [s for s in wh.body if isinstance(s, ast.Assign) and isinstance(s.targets[0], ast.Name)
                       and s.targets[0].id == cnt and call_name(s.value) == "read_int"]
-            first = [s for s in r.body if isinstance(s, ast.Assign) and isinstance(s.targets[0], ast.Name)
-                     and s.targets[0].id == cnt and call_name(s.value) == "read_int" and s.lineno < wh.lineno]
+            blk_ = wh._parent.body if wh in getattr(wh._parent, "body", []) else []
+            first = [s for s in blk_[:blk_.index(wh)] if isinstance(s, ast.Assign) and isinstance(s.targets[0], ast.Name)
+                     and s.targets[0].id == cnt and call_name(s.value) == "read_int"] if blk_ else []
             if inner_for and reread and first and call_name(inner_for[0].iter) == "range" \
                     and src(inner_for[0].iter.args[0]) == cnt:
                 des = [c for c in ast.walk(inner_for[0]) if isinstance(c, ast.Call) and call_name(c)
@@ -444,7 +461,8 @@ def z2_codecs(prog, ctx, wc):
             ctx.fail("Z2", m.functions[wq], wq, wq, "codec writer %s has no reader %s" % (wq, rq))
             continue
         pairs += 1
-        wf, rf = m.functions[wq], m.functions[rq]
+        from ..engine import inline
+        wf, rf = inline.inlined(prog, m.functions[wq]), inline.inlined(prog, m.functions[rq])    # a codec built on a sibling codec is seen whole
         ww = _raw_writes(wc, wf)
         rr = _raw_reads(wc, rf)
         # resolve param widths through defaults
